@@ -125,12 +125,15 @@ def judge_arc(a):
     if not segs: return ('a proper arc yields at least one segment', '>=1 segment', segs)
     if any(s[0] is None for s in segs): return ('a proper arc yields cubic segments', 'cubics', segs)
     if tuple(segs[-1][2]) != (x2, y2): return ('last segment ends exactly at the arc end point', (x2, y2), tuple(segs[-1][2]))
+    return cubics_on_arc(x1, y1, rx, ry, rot, fa, fs, x2, y2, segs)
+
+def cubics_on_arc(x1, y1, rx, ry, rot, fa, fs, x2, y2, segs):
+    """segs: [(p1, p2, end)] cubic segments claimed to trace the arc from (x1,y1); None if they do, within 0.03%"""
     cx, cy, crx, cry, th1, dth = true_center(x1, y1, rx, ry, rot, fa, fs, x2, y2)
     phi = math.radians(rot); c, s = math.cos(phi), math.sin(phi)
     def norm(p):
         dx, dy = p[0] - cx, p[1] - cy
         return ((c * dx + s * dy) / crx, (-s * dx + c * dy) / cry)
-    scale = max(abs(x1), abs(y1), abs(x2), abs(y2), crx, cry, 1e-12)
     cur = (x1, y1)
     swept = 0.0
     prev_ang = None
